@@ -1,4 +1,5 @@
 import Octo.Proofs.VmessHdrGen
+import Octo.Props.C03
 /-!
 # C04 / C07 / C10 / C06 for the VMess connection-level codecs **as translated from the Rust source**
 
@@ -251,6 +252,100 @@ theorem c07_gen_body_keeps_implementor {RNG : Type} (Bx : Octo.VmessBodyGen.Ext 
   ⟨decode_payload_kind Bx ov g src s r, decode_packet_kind Bx ov g src s r⟩
 
 end serverProps
+
+/-! ### round 3: the closed server theorem; `ServerAeadCodec::encode` (response header) -/
+section round3
+open Octo.VmessBodyGen (RelN SessD)
+
+/-- the assumption about the two untranslated constructors is satisfiable (externals whose `new_decoder` builds the codec value of
+`Body.new`), and so is the one about the encoder's externals -/
+example (C : Crypto) : NewDecOk (hextOf2 C) C (Octo.VmessBodyGen.extOf_ok C) := newDecOk_hextOf2 C
+example (C : Crypto) (h1 : ∀ b, C.crc32 b < 2 ^ 32) (h2 : ∀ b, C.fnv1a32 b < 2 ^ 32) : EncExtOk (hextOf C) C (hextOf_ok C h1 h2) :=
+  encExtOk_hextOf C h1 h2
+/-- related states exist: a fresh generated server and a fresh model server over the same key table -/
+example (B : Octo.VmessBodyGen.ExtOk X.body C) (keys : List Bytes) :
+    SRel B (⟨keys, .Init, .Init⟩ : ServerAeadCodec CM XR) ⟨keys, none⟩ := ⟨rfl, trivial⟩
+
+/-- **`optsOf m` ↔ `knownMask m`** and the cipher choice: what `from_mask` / `SecurityType::from` + `AEADBodyCodec::new` make of the two
+wire bytes is what the model makes of them (checked for all 256 values of each byte by kernel evaluation) -/
+theorem c04_gen_option_mask_is_model (m b : UInt8) :
+    maskOfOpts (optsOf m) = knownMask m.toNat ∧ secM (secOf (b &&& 15)) = Security.ofByte (b.toNat % 16) :=
+  ⟨opts_mask m, sec_model b⟩
+
+/-- **C04 / C06 / C07 / C10 / C02 — THE CLOSED THEOREM: the generated `ServerAeadCodec::decode` is the model's `Server.decode`, for every
+call**: every related pair of states (`SRel`: `Init`, or `Ready` with related body codec), every buffer below 2^64 bytes, both overflow
+profiles, inside the i64 guard of the time window (needed only in `Init` with ≥ 16 bytes): no panic, the model's buffer is left, the
+model's outcome is returned (`Ok(None)` / `Err` / the same `ConnectTcp` / `RelayTcp` / `RelayUdp` with the same bytes and address), the
+new states are related again (so the statement iterates over any segmentation of the stream), the clock shows the same time.
+Assumptions: `HExtOk`, VmessBodyGen's `ExtOk`, `NewDecOk` (the two untranslated constructors build the model's `Body.new`), `C.Lawful`.
+With it every theorem about `Server.decode` (`Octo/Props/C04VmessStream.lean`, `C06.lean`, `C07.lean`, `C10.lean`) transfers. -/
+theorem c04_gen_server_decode_is_model (A : HExtOk X C) (B : Octo.VmessBodyGen.ExtOk X.body C) (N : NewDecOk X C B) (hC : C.Lawful)
+    (ov : Bool) (g : ServerAeadCodec CM XR) (sv : Server) (w : W) (buf : Bytes) (hrel : SRel B g sv) (hl : buf.length < 2 ^ 64)
+    (hguard : sv.ready = none → 16 ≤ buf.length → MatchGuard C (buf.take 16) sv.keys (A.nowOf w)) :
+    ∃ g' w' res, ServerAeadCodec.Decoder_decode X ov g w buf =
+        PWGen.Res.ok (g', w', (Server.decode C X.utf8_ok (A.nowOf w) sv buf).buf, res) ∧
+      resOf res = (Server.decode C X.utf8_ok (A.nowOf w) sv buf).res ∧
+      SRel B g' (Server.decode C X.utf8_ok (A.nowOf w) sv buf).st ∧ A.nowOf w' = A.nowOf w :=
+  gen_server_decode_eq A B N hC ov g sv w buf hrel hl hguard
+
+/-- the response header of the generated code is the specification's (`Spec.vmessResponseHeader`) -/
+theorem c03_gen_resp_header_is_spec (hC : C.Lawful) (sess : ServerSession) (opt : UInt8) :
+    respHeaderM C sess opt = Spec.vmessResponseHeader C sess.response_body_key sess.response_body_iv [sess.response_header, opt, 0, 0] := by
+  simp only [respHeaderM, Spec.vmessResponseHeader, vmess_kdf16 C hC, vmess_kdf12 C hC,
+    Vmess.saltRespLenKey, Vmess.saltRespLenIv, Vmess.saltRespKey, Vmess.saltRespIv, Vmess.str, Spec.ascii]
+  rfl
+
+/-- **C03 (`c03_vmess_response_header` for the code) — `ServerAeadCodec::encode`, first item**: what is written first is the
+specification's response header `AEAD(len = 4) ‖ AEAD(V ‖ Opt ‖ 0 ‖ 0)` under the keys derived from the session's RESPONSE key / IV,
+its first byte `V` being the session's response byte (the one the client checks: `c10_gen_client_wrong_response_byte`); the item then
+goes through the generated body encoder (`Octo.VmessBodyGen`) behind it, and the encoder is kept (so the header is not written again) -/
+theorem c03_gen_vmess_response_header (A : HExtOk X C) (E : EncExtOk X C A) (hC : C.Lawful) (ov : Bool) (g : ServerAeadCodec CM XR) (w : W)
+    (hdr : RequestHeader) (sess : ServerSession) (d : AEADBodyCodec CM XR) (item : OutboundIn) (dst : Bytes)
+    (hst : g.decode_state = .Ready hdr sess d) (hes : g.encode_state = .Init) :
+    ∃ sess' r, X.new_encoder hdr (.ServerSession sess) = (.ServerSession sess', r) ∧
+      ServerAeadCodec.Encoder_OutboundIn_encode X ov g w item dst =
+        match r with
+        | RResult.err => PWGen.Res.ok ({ g with decode_state := .Ready hdr sess' d }, w,
+            dst ++ Spec.vmessResponseHeader C sess.response_body_key sess.response_body_iv [sess.response_header, maskByte hdr.option, 0, 0],
+            RResult.err)
+        | RResult.ok enc =>
+          match ServerAeadCodec.encode X ov w (bytesOf item)
+              (dst ++ Spec.vmessResponseHeader C sess.response_body_key sess.response_body_iv [sess.response_header, maskByte hdr.option, 0, 0])
+              hdr sess' enc with
+          | .ok (w', dst', sess'', enc', res) =>
+            PWGen.Res.ok ({ g with decode_state := .Ready hdr sess'' d, encode_state := .Ready enc' }, w', dst', res)
+          | .panic => PWGen.Res.panic := by
+  obtain ⟨sess', r, h1, h2⟩ := gen_server_encode_first A E ov g w hdr sess d item dst hst hes
+  exact ⟨sess', r, h1, by rw [h2, c03_gen_resp_header_is_spec hC]; cases r <;> rfl⟩
+example : ∃ g : ServerAeadCodec Unit Unit, g.encode_state = .Init := ⟨⟨[], .Init, .Init⟩, rfl⟩
+
+/-- **the response header is written once**: with the encoder installed, `encode` writes NO header — the item goes straight through
+the body encoder; before the request has been decoded (`Init`) `encode` refuses and writes nothing -/
+theorem c03_gen_vmess_response_header_once (ov : Bool) (g : ServerAeadCodec CM XR) (w : W)
+    (hdr : RequestHeader) (sess : ServerSession) (d enc : AEADBodyCodec CM XR) (item : OutboundIn) (dst : Bytes) :
+    (g.decode_state = .Ready hdr sess d → g.encode_state = .Ready enc →
+      ServerAeadCodec.Encoder_OutboundIn_encode X ov g w item dst =
+        match ServerAeadCodec.encode X ov w (bytesOf item) dst hdr sess enc with
+        | .ok (w', dst', sess'', enc', res) =>
+          PWGen.Res.ok ({ g with decode_state := .Ready hdr sess'' d, encode_state := .Ready enc' }, w', dst', res)
+        | .panic => PWGen.Res.panic) ∧
+    (g.decode_state = .Init → ServerAeadCodec.Encoder_OutboundIn_encode X ov g w item dst = PWGen.Res.ok (g, w, dst, RResult.err)) :=
+  ⟨fun h1 h2 => gen_server_encode_later ov g w hdr sess d enc item dst h1 h2, fun h => gen_server_encode_not_ready ov g w item dst h⟩
+
+/-- **C02 / C03 — which body encoder an item takes**: TCP items go through `encode_payload` (any length, chunked), UDP items through
+`encode_packet` (exactly one chunk) — of the generated body codec, on the server's session -/
+theorem c03_gen_server_encode_item (ov : Bool) (w : W) (item dst : Bytes) (hdr : RequestHeader) (sess : ServerSession)
+    (enc : AEADBodyCodec CM XR) :
+    ServerAeadCodec.encode X ov w item dst hdr sess enc =
+      match (match hdr.command with
+        | .TCP => Octo.VmessBodyGen.AEADBodyCodec.encode_payload X.body ov enc w item dst (.ServerSession sess)
+        | .UDP => Octo.VmessBodyGen.AEADBodyCodec.encode_packet X.body ov enc w item dst (.ServerSession sess)) with
+      | .ok (enc', w', dst', .ServerSession s', r) => PWGen.Res.ok (w', dst', s', enc', r)
+      | .ok (_, _, _, .ClientSession _, _) => PWGen.Res.panic
+      | .panic => PWGen.Res.panic :=
+  gen_server_encode_item ov w item dst hdr sess enc
+
+end round3
 
 /-! ### where the code and the model differ: the i64 edge of the time window -/
 
